@@ -54,8 +54,16 @@ pub fn ticks(seed: u64, r: u64, t: u64, o: u64) -> u64 {
     base + 1_000 * (mix(seed, r, t, o) % 7)
 }
 
-pub fn items(seed: u64, r: u64, t: u64, o: u64) -> u64 {
-    1 + mix(seed ^ 0x5555, r, t, o) % 50
+/// Per-input item count of call (r, t, o) under `HX_COUNTER`: `1` independent of the call's time,
+/// `2` anti-correlated with it (the faster the call, the larger the count), `3` correlated.
+pub fn items(cmode: char, seed: u64, r: u64, t: u64, o: u64) -> u64 {
+    let class = mix(seed, r, t, o) % 7;
+    let noise = mix(seed ^ 0x5555, r, t, o);
+    match cmode {
+        '2' => 10 * (7 - class) + noise % 5,
+        '3' => 10 * (1 + class) + noise % 5,
+        _ => 1 + noise % 50,
+    }
 }
 
 /// What call (r, t, o) does with the allocator under `HX_ALLOC`: `None` nothing, `Some(op)` with
@@ -103,7 +111,8 @@ fn do_alloc(op: u64) {
 fn job(b: Bencher) {
     let amode: char = std::env::var("HX_ALLOC").ok().and_then(|s| s.chars().next()).unwrap_or('0');
     let seed: u64 = std::env::var("HX_SEED").ok().and_then(|s| s.parse().ok()).unwrap_or(0);
-    let counter = std::env::var("HX_COUNTER").map(|c| c == "1").unwrap_or(false);
+    let cmode: char = std::env::var("HX_COUNTER").ok().and_then(|s| s.chars().next()).unwrap_or('0');
+    let counter = cmode != '0';
     let run = RUN.fetch_add(1, Ordering::SeqCst);
     let work = move || {
         let t = v::thread_index() as u64;
@@ -117,7 +126,7 @@ fn job(b: Bencher) {
         b.with_inputs(move || {
             let t = v::thread_index() as u64;
             let o = next_ord(&GEN_ORD, run);
-            items(seed, run, t, o)
+            items(cmode, seed, run, t, o)
         })
         .input_counter(|n: &u64| divan::counter::ItemsCount::new(*n))
         .bench_values(move |n| {
